@@ -94,13 +94,25 @@ static string show_net(LocalNetwork& IS)
     s << vp::hex(p.test_xy() ? p.x() : 0.0) << " " << vp::hex(p.test_xy() ? p.y() : 0.0);
   }
   s << " | ";
-  first = true;
-  for (auto ci = IS.OD.clusters.begin(); ci != IS.OD.clusters.end(); ++ci)
+  bool firstc = true;
+  for (auto ci = IS.OD.clusters.begin(); ci != IS.OD.clusters.end(); ++ci) {
+    if (!firstc) s << " ; ";
+    firstc = false;
+    first = true;
     for (auto m = (*ci)->observation_list.begin(); m != (*ci)->observation_list.end(); ++m) {
       if (!first) s << " ";
       first = false;
       s << vp::hex((*m)->value());
     }
+    s << " :";
+    // covariance matrix (dense) of the clusters whose <cov-mat> is given explicitly
+    if (dynamic_cast<Vectors*>(*ci) || dynamic_cast<Coordinates*>(*ci)) {
+      const auto& C = (*ci)->covariance_matrix;
+      const int N = C.dim();
+      for (int r = 1; r <= N; r++)
+        for (int c = 1; c <= N; c++) s << " " << vp::hex(C(r, c));
+    }
+  }
   return s.str();
 }
 
